@@ -78,6 +78,12 @@ pub struct Case {
     pub retry0: bool,
     pub phase2: bool,
     pub mutation: Mutation,
+    /// Some(e): wire group: the channel is opened through the vls-protocol-signer handlers
+    /// (NewChannel, SetupChannel with channel-type encoding e, see proto.rs) and commitment 0 is
+    /// requested with SignRemoteCommitmentTx2; the signature must be over the BOLT-3 transaction of
+    /// the channel type that was negotiated on the wire
+    #[serde(default)]
+    pub wire: Option<u8>,
 }
 
 fn hsel_strat() -> impl Strategy<Value = HSel> {
@@ -165,6 +171,73 @@ impl C04 {
     }
 }
 
+impl C04 {
+    /// Wire group: open the channel through the protocol handlers and request commitment 0.
+    fn run_wire(&self, case: &Case, enc: u8, st: &mut CaseStats, ctx: &Ctx) -> Result<(), Violation> {
+        use crate::props::proto::{Negotiation, ProtoWorld, To};
+        use vls_protocol::model::PubKey;
+        use vls_protocol::msgs::{self, Message};
+        let mut pw = ProtoWorld::new(WorldCfg::default_testnet(), 6, Negotiation::SignerCap);
+        pw.channel_type_encoding = enc;
+        pw.check_setup = false;
+        let value = [3_000_000u64, 100_000, 16_000_000][case.value_sel as usize % 3];
+        let spec = ChanSpec {
+            dbid: case.dbid as u64 + 1,
+            peer: case.peer,
+            anchors: case.anchors,
+            outbound: case.outbound,
+            value_sat: value,
+            push_msat: 0,
+            holder_delay: case.holder_delay,
+            cp_delay: case.cp_delay,
+            funding_vout: case.vout as u32,
+        };
+        let ci = match pw.new_stub(&spec) {
+            Out::Ok(i) => i,
+            _ => return Ok(()),
+        };
+        let r = pw.setup_chan(ci);
+        st.class(format!("wire:enc{}:setup:{}", enc, r.tag()));
+        if !r.is_ok() {
+            return Ok(());
+        }
+        let secp = pw.secp.clone();
+        let c0 = finish_content(case.anchors, value, FEERATES[case.fee as usize % 3], 0, vec![], vec![]);
+        let p0 = pw.chans[ci].cp.point(&secp, 0);
+        let msg = Message::SignRemoteCommitmentTx2(msgs::SignRemoteCommitmentTx2 {
+            remote_per_commitment_point: PubKey(p0.serialize()),
+            commitment_number: 0,
+            feerate: c0.feerate,
+            to_local_value_sat: c0.to_holder,
+            to_remote_value_sat: c0.to_cp,
+            htlcs: vls_protocol::serde_bolt::Array(vec![]),
+        });
+        let rep = pw.request(To::Chan(ci), msg);
+        st.class(format!("wire:enc{}:sign:{}", enc, rep.tag()));
+        let Out::Ok(rep) = rep else { return Ok(()) };
+        let Some(rep) = rep.as_any().downcast_ref::<msgs::SignCommitmentTxWithHtlcsReply>() else {
+            return ctx.report(st, Violation::new("C04:wire:unexpected-reply", "SignRemoteCommitmentTx2 was not answered with SignCommitmentTxWithHtlcsReply".to_string()));
+        };
+        let sig = match Signature::from_compact(&rep.signature.signature.0) {
+            Ok(s) => s,
+            Err(_) => return ctx.report(st, Violation::new("C04:wire:malformed-signature", "reply signature is not a compact ECDSA signature".to_string())),
+        };
+        // reference: the BOLT-3 transaction of the channel type that was sent on the wire
+        let chan = &pw.chans[ci];
+        let reftx = chan.ref_cp_commitment(&secp, 0, &p0, &c0);
+        let canonical = reftx.trust().built_transaction().transaction.clone();
+        if secp.verify_ecdsa(&chan.commitment_sighash(&canonical), &sig, &chan.holder_pubkeys.funding_pubkey).is_err() {
+            return ctx.report(st, Violation::new(
+                "C04:wire:commit-sig-not-over-reference-tx",
+                format!("{:?}: channel opened over the wire (channel-type encoding {}), the signature for commitment 0 does not verify against the BOLT-3 transaction of the negotiated channel type", case, enc),
+            ));
+        }
+        st.nontrivial_shape(("wire", enc, case.anchors, case.outbound, case.fee % 3));
+        st.sample = Some(json!({"case": case, "wire": enc}));
+        Ok(())
+    }
+}
+
 impl Prop for C04 {
     type Case = Case;
     fn id(&self) -> &'static str {
@@ -198,10 +271,10 @@ impl Prop for C04 {
         (
             (any::<bool>(), any::<bool>(), delay.clone(), delay, 0u8..4, any::<u8>(), prop_oneof![Just(0u16), Just(1u16), Just(65535u16), any::<u16>()]),
             (0u8..3, 0u8..3, 0u8..3, proptest::collection::vec(hsel_strat(), 0..5)),
-            (prop::bool::weighted(0.1), prop::bool::weighted(0.3), mutation_strat()),
+            (prop::bool::weighted(0.1), prop::bool::weighted(0.3), mutation_strat(), prop_oneof![12 => Just(None), 1 => Just(Some(0u8)), 1 => Just(Some(1u8))]),
         )
-            .prop_map(|((anchors, outbound, holder_delay, cp_delay, peer, dbid, vout), (value_sel, fee, to_cp, htlcs), (retry0, phase2, mutation))| Case {
-                anchors, outbound, holder_delay, cp_delay, peer, dbid, vout, value_sel, fee, to_cp, htlcs, retry0, phase2, mutation,
+            .prop_map(|((anchors, outbound, holder_delay, cp_delay, peer, dbid, vout), (value_sel, fee, to_cp, htlcs), (retry0, phase2, mutation, wire))| Case {
+                anchors, outbound, holder_delay, cp_delay, peer, dbid, vout, value_sel, fee, to_cp, htlcs, retry0, phase2, mutation, wire,
             })
             .boxed()
     }
@@ -210,6 +283,9 @@ impl Prop for C04 {
     }
 
     fn run(&self, case: &Case, st: &mut CaseStats, ctx: &Ctx) -> Result<(), Violation> {
+        if let Some(enc) = case.wire {
+            return self.run_wire(case, enc, st, ctx);
+        }
         let mut w = World::new(WorldCfg::default_testnet());
         let value = [3_000_000u64, 100_000, 16_000_000][case.value_sel as usize % 3];
         let spec = ChanSpec {
